@@ -1395,14 +1395,21 @@ class Engine:
 
     def mangle(self, attr, fr, obj=None):
         if attr.startswith("__") and not attr.endswith("__"):
+            cand = None
             for f in reversed(self.frames):
                 if f.clsnode is not None:
-                    return "_%s%s" % (f.clsnode.name.lstrip("_"), attr)
-            # specifications of ghost client code name private fields of an object directly
-            if isinstance(obj, Ref) and self.cell(obj)[0] == "obj":
-                for f in self.cell(obj)[2]:
+                    cand = "_%s%s" % (f.clsnode.name.lstrip("_"), attr)
+                    break
+            # specifications (and ghost client code) may name private fields of another object directly
+            if isinstance(obj, Ref) and self.cell(obj)[0] == "obj" and (cand is None or self.spec_mode):
+                fields = self.cell(obj)[2]
+                if cand is not None and cand in fields:
+                    return cand
+                for f in fields:
                     if f.endswith(attr) and f.startswith("_") and f[1:-len(attr)].isidentifier():
                         return f
+            if cand is not None:
+                return cand
         return attr
 
     def set_attr(self, obj, attr, v, fr, node):
